@@ -1372,4 +1372,6 @@ func TestC06(t *testing.T) {
 	h.Run(c, "pairs", c.N(50000, 500000), genCase, oracle)
 	c.Rule("stateless: a function comparing its parameter with one literal (==, != both ways, in, switch case) is called for 2-5 values in a row (the number the literal denotes, its other numeric kind, other spellings, neighbours, arbitrary primitives); the results must equal those of the same function evaluated for each value alone in a fresh program; non-trivial = the values are of >= 2 kinds")
 	h.Run(c, "stateless", c.N(8000, 80000), genHist, oracleHist)
+	c.Rule("kinds: ordered pairs whose operands are values of every Go numeric kind a script can hold (float32, int8..int32, int, uint8..uint64: element of a typed slice literal or result of a host function) or int64 / float64 / numeral string / bool / nil, over numbers chosen at the limits of the narrow kinds and where float32 is inexact, held as expression / variable / list element; only the laws are asserted (symmetry, != as negation, in and switch agree with ==), never which pairs are equal; non-trivial = at least one operand of a Go kind other than int64/float64/string/bool")
+	h.Run(c, "kinds", c.N(12000, 120000), genKinds, oracleKinds)
 }
